@@ -90,7 +90,7 @@ def main():
             except Exception as e:
                 out["replay"] = str(e)
         out["caught"] = rc == 1 and bool(v)
-        out["with_failing_input"] = bool(v) and "no-failing-input-found" not in v[0]
+        out["with_failing_input"] = any("no-failing-input-found" not in l for l in v)
     finally:
         sh(["git", "-C", "/repo", "worktree", "remove", "--force", wt])
     print(json.dumps(out, indent=1))
